@@ -22,11 +22,26 @@ SPEC_DIR = "/verif/specs/colang2"
 FRAGMENT_FEATURES = {"when", "if", "while", "groups", "return", "abort", "vars", "start", "actions", "refs", "activate"}
 INVARIANTS = ("QueueEmpty", "Parked", "IndexIsScan", "DoneNoHeads",      # C09
               "L1S", "L2S",                                                # C06 (keeper, action life-cycle monitor)
-              "NoFuelOut")                                                 # C10 (no recursion budget exhausted)
+              "NoFuelOut",                                                 # C10 (no recursion budget exhausted)
+              "AgeInvisible", "NoDangling",                                # C11 (discarding old finished instances changes nothing)
+              "ScopeActionsExist")                                              # C11 (discarding old finished instances changes nothing)
 PROPERTIES = ("L2bS", "L2cS",                                              # C06 (stop-on-end, shared actions)
               "EventBound")                                                # C10 (internal events per call linear in program size x instances)
 SERVES = {"QueueEmpty": "C09", "Parked": "C09", "IndexIsScan": "C09", "DoneNoHeads": "C09", "L1S": "C06", "L2S": "C06", "L2bS": "C06", "L2cS": "C06",
-          "NoFuelOut": "C10", "EventBound": "C10"}
+          "NoFuelOut": "C10", "EventBound": "C10", "AgeInvisible": "C11", "NoDangling": "C11", "ScopeActionsExist": "C09"}
+
+
+# directed programs (always explored, one step deeper): shared activation, restart chains, late references to finished
+# flows, scopes with child flows, actions of finished flows - the situations in which discarding old instances matters
+DIRECTED = [
+    "flow z\n  match E1()\n  send Out1()\n\nflow a\n  activate z\n  match E2()\n\nflow b\n  activate z\n  match E3()\n\nflow main\n  start a\n  start b\n  match Never()\n",
+    "flow z\n  match E1()\n  send Out1()\n\nflow y\n  activate z\n  match E2()\n  send Out2()\n\nflow main\n  activate y\n  match E3()\n  send Out3()\n  match Never()\n",
+    "flow f\n  match E1()\n  return 3\n\nflow main\n  start f as $r\n  match E2()\n  match $r.Finished()\n  send Out1()\n  match Never()\n",
+    "flow f\n  match E1()\n  send Out1()\n\nflow g\n  match E2()\n  abort\n\nflow main\n  while True\n    when f\n      send Out2()\n    or when g\n      send Out3()\n    else\n      send Out1()\n    match E3()\n",
+    "flow a\n  start A1Action(x=1) as $r\n  match E1()\n  send Out1()\n\nflow b\n  start A1Action(x=1)\n  match E2()\n\nflow main\n  start a\n  start b\n  match E3()\n  await a\n  match Never()\n",
+    "flow z\n  match E1()\n  start_new_flow_instance:\n  match E2()\n  send Out1()\n\nflow main\n  activate z\n  match E3()\n  send Out2()\n  match Never()\n",
+    "flow c\n  match E1()\n\nflow p\n  start c\n  match E2()\n\nflow main\n  start p as $p\n  match $p.Finished()\n  send Out1()\n  start p\n  match E3()\n  send Out2()\n  match Never()\n",
+]
 
 
 def val(v):
@@ -41,8 +56,8 @@ def val(v):
     raise ValueError(v)
 
 
-def explore(ctx, nprog, maxhist, maxpick, seed_offset=0, counter=None):
-    progs = progs2.generated(ctx.seed + 77 + seed_offset, nprog, features=FRAGMENT_FEATURES)
+def explore(ctx, nprog, maxhist, maxpick, seed_offset=0, counter=None, maxtick=1, age_pairs=False):
+    progs = DIRECTED + progs2.generated(ctx.seed + 77 + seed_offset, nprog, features=FRAGMENT_FEATURES)
     prepared = []
     outside = 0
     for i, src in enumerate(progs):
@@ -60,7 +75,9 @@ def explore(ctx, nprog, maxhist, maxpick, seed_offset=0, counter=None):
         pf = os.path.join(wd, "prog.json")
         with open(pf, "w") as f:
             json.dump(prog, f)
-        cfg = ("CONSTANTS MaxHist = %d\nMaxPick = %d\nSPECIFICATION Spec\nVIEW SView\nINVARIANT EmitState\n" % (maxhist, maxpick)
+        deep = i < len(DIRECTED)
+        cfg = ("CONSTANTS MaxHist = %d\nMaxPick = %d\nMaxTick = %d\nSPECIFICATION Spec\nVIEW SView\nINVARIANT EmitState\n" % (
+            maxhist + (1 if deep else 0), maxpick, maxtick + (1 if deep else 0))
                + "".join("INVARIANT %s\n" % x for x in INVARIANTS) + "".join("PROPERTY %s\n" % x for x in PROPERTIES))
         return tlc.run("MC_ColangSM.tla", cfg, wd, spec_dirs=[SPEC_DIR], env={"PROG_FILE": pf}, workers=1, timeout=1800, expect_fail=True)
 
@@ -68,13 +85,16 @@ def explore(ctx, nprog, maxhist, maxpick, seed_offset=0, counter=None):
         results = list(ex.map(run_tlc, prepared))
     colang2.install_scripted_random()
     sm = colang2.sm
+    clock = colang2.install_fake_clock()
+    from nemoguardrails.colang.v2_x.runtime import flows as _fl
+    _fl.datetime = clock          # time stamps of status changes come from the same clock
     created = _log_action_creation()
     out = {"programs": len(prepared), "outside_fragment": outside, "states": 0, "transitions": 0, "compared": 0, "drift": 0,
-           "spec_violations": [], "traces": [], "drift_samples": [], "errors": [], "bounds": []}
+           "spec_violations": [], "traces": [], "drift_samples": [], "errors": [], "bounds": [], "age_pairs": []}
     for (i, src, prog, alphabet), r in zip(prepared, results):
         hard = [x for x in r.errors if "The behavior up to this point" not in x and "counter-example" not in x]
         if hard or (not r.violated and r.rc not in (0,)):
-            out["errors"].append({"program": src, "error": r.errors[:2], "tail": r.out[-600:]})
+            out["errors"].append({"program": src, "error": r.errors[:2], "tail": r.out[-3000:]})
             continue
         out["states"] += r.distinct
         out["transitions"] += r.generated
@@ -85,15 +105,18 @@ def explore(ctx, nprog, maxhist, maxpick, seed_offset=0, counter=None):
         nelements = sum(len(c.elements) for c in base.flow_configs.values())
         base_created = list(created)
         first = v2corpus.step_record({"type": "StartFlow", "flow_id": "main"}, base)
-        for p in r.printed:
-            if "hist" not in p:
-                continue
+        def _replay(hist):
+            """The history through the real run_to_completion: (state, step records, error, per-event outgoing events)."""
             s = copy.deepcopy(base)
             created[:] = base_created
             steps = [first]
-            err = None
-            for (ai, pick, act) in p["hist"]:
+            outs = []
+            clock.offset = 0.0
+            for (ai, pick, act) in hist:
                 colang2._scripted.picks = [pick] * 16
+                if ai == 0:
+                    clock.offset += 10.0        # more than 5 s pass: the next run_to_completion cleans up
+                    continue
                 if ai > 0:
                     ev = dict(alphabet[ai - 1])
                 else:
@@ -107,29 +130,43 @@ def explore(ctx, nprog, maxhist, maxpick, seed_offset=0, counter=None):
                     if counter is not None:
                         out["bounds"].append({"elements": nelements, "instances": live, "steps": counter["n"], "ev": ev.get("type"), "origin": "colangsm:%d" % i})
                 except Exception as ex:
-                    err = "%s: %s" % (type(ex).__name__, ex)
-                    break
+                    return s, steps, "%s: %s" % (type(ex).__name__, ex), outs
                 steps.append(v2corpus.step_record(ev, s))
+                amap = {u: n + 1 for n, (u, _) in enumerate(created)}
+                outs.append([[e["type"], amap.get(e.get("action_uid"), 0)] for e in s.outgoing_events])
+            return s, steps, None, outs
+
+        for p in r.printed:
+            if "hist" not in p:
+                continue
+            s, steps, err, outs = _replay(p["hist"])
+            if age_pairs and any(h[0] == 0 for h in p["hist"]):
+                _, _, err0, outs0 = _replay([h for h in p["hist"] if h[0] != 0])
+                out["age_pairs"].append({"origin": "colangsm:%d" % i, "source": src, "hist": p["hist"], "ref": outs0, "got": outs, "ref_err": err0, "err": err})
+                s, steps, err, outs = _replay(p["hist"])          # (the creation log is the one of the history itself again)
             out["compared"] += 1
+            if any(f["status"] == "GONE" for f in p["proj"]["flows"]):
+                out["aged_states"] = out.get("aged_states", 0) + 1
             if err is not None:
                 out["drift"] += 1
                 out["drift_samples"].append({"program": src, "hist": p["hist"], "error": err})
                 continue
             real = [(f.flow_id, f.status.name, [(h.position, h.status.name) for h in f.heads.values()]) for f in s.flow_states.values()]
-            spec = [(f["fid"], f["status"], [(h["pos"], h["status"]) for h in f["heads"]]) for f in p["proj"]["flows"]]
+            spec = [(f["fid"], f["status"], [(h["pos"], h["status"]) for h in f["heads"]]) for f in p["proj"]["flows"] if f["status"] != "GONE"]
             aidx = {u: i + 1 for i, (u, _) in enumerate(created)}
             rout = [(e["type"], aidx.get(e.get("action_uid"), 0)) for e in s.outgoing_events]
             sout = [(e["name"], e["act"]) for e in p["proj"]["out"]]
             ract = sorted((aidx[u], a.name, a.status.name, a.flow_scope_count) for u, a in s.actions.items() if u in aidx)
             sact = sorted((i + 1, a["name"], a["status"], a["scope"]) for i, a in enumerate(p["proj"]["actions"]) if a["status"] != "DELETED")
             # the dispatch index: (instance number, event name) multiset
-            inst = {uid: k + 1 for k, uid in enumerate(s.flow_states.keys())}
+            alive = [f["k"] for f in p["proj"]["flows"] if f["status"] != "GONE"]       # instance numbers of the specification that still exist
+            inst = {uid: alive[j] for j, uid in enumerate(s.flow_states.keys())} if len(alive) == len(s.flow_states) else {uid: -1 for uid in s.flow_states}
             ridx = sorted((inst[fu], name) for name, lst in s.event_matching_heads.items() for (fu, hu) in lst)
             sidx = sorted((x[0], x[2]) for x in p["proj"]["index"])
             if real != spec or rout != sout or ridx != sidx or ract != sact:
                 out["drift"] += 1
                 if len(out["drift_samples"]) < 5:
-                    out["drift_samples"].append({"program": src, "hist": [[alphabet[a - 1] if a > 0 else ("act%d %s" % (c, "Started" if a == -1 else "Finished")), pk] for a, pk, c in p["hist"]],
+                    out["drift_samples"].append({"program": src, "hist": [[alphabet[a - 1] if a > 0 else ("5 s pass" if a == 0 else "act%d %s" % (c, "Started" if a == -1 else "Finished")), pk] for a, pk, c in p["hist"]],
                                                  "real": [real, rout, ridx, ract], "spec": [spec, sout, sidx, sact]})
             if len(steps) > 1:
                 out["traces"].append({"steps": steps, "origin": "colangsm:%d" % i})
